@@ -94,6 +94,9 @@ type c12Fake struct {
 	failSync bool
 	// fault plan for deletes: the next Delete returns a transient error
 	failDelete bool
+	// stop inside a release: the Delete of this key parks at the store until the crash drops it
+	parkDeleteKey string
+	parkedDel     chan int
 }
 
 type c12Handle struct {
@@ -160,6 +163,17 @@ func (h *c12Handle) Delete(ctx context.Context, ns, key string) error {
 	if h.epoch != f.epoch {
 		f.mu.Unlock()
 		return errC12Dead
+	}
+	if f.parkDeleteKey != "" && f.parkDeleteKey == key {
+		ch := make(chan int, 1)
+		f.parkedDel = ch
+		f.mu.Unlock()
+		how := <-ch
+		f.mu.Lock()
+		if how != 1 || h.epoch != f.epoch {
+			f.mu.Unlock()
+			return errC12Dead
+		}
 	}
 	if f.failDelete {
 		f.failDelete = false
@@ -902,15 +916,32 @@ func (e *c12Env) finish(t int) bool {
 	return false
 }
 
-func (e *c12Env) crash(preserved bool, fail int) string {
+func (e *c12Env) crash(preserved bool, fail int, pre string, dying chan string) string {
 	// the old incarnation dies: its parked writes never reach the store
 	e.fake.mu.Lock()
 	e.fake.epoch++
 	old := e.fake.parked
 	e.fake.parked = nil
+	pd := e.fake.parkedDel
+	e.fake.parkedDel = nil
+	e.fake.parkDeleteKey = ""
 	e.fake.mu.Unlock()
 	for _, p := range old {
 		e.fake.complete(p, false)
+	}
+	if pd != nil {
+		pd <- 0
+	}
+	if dying != nil {
+		// a handler of the dead incarnation that was in the middle of its work runs to its end (against the dead
+		// store handle); what it still logs is not part of the new incarnation
+		select {
+		case <-dying:
+		case <-time.After(5 * time.Second):
+		}
+		e.fake.mu.Lock()
+		e.fake.opGID = -2
+		e.fake.mu.Unlock()
 	}
 	e.tickets = map[int]*c12Put{}
 	e.unarrived = map[int]c12Want{}
@@ -933,6 +964,13 @@ func (e *c12Env) crash(preserved bool, fail int) string {
 			i, _ := strconv.Atoi(strings.SplitN(tok[1:], ":", 2)[0])
 			e.expect(e.tick, c12SessID(i), "")
 			e.tick++
+		}
+	}
+	if pre != "" && pre != "-" {
+		if lg == "-" {
+			lg = pre
+		} else {
+			lg = pre + "," + lg
 		}
 	}
 	return "crash" + r + " " + lg + " live=" + e.p.dumpLive(e.kpd) + " store=" + e.dumpStore()
@@ -1238,7 +1276,50 @@ func (e *c12Env) runCase(f []string) string {
 			if len(a) > 2 {
 				fail, _ = strconv.Atoi(a[2])
 			}
-			out = append(out, e.crash(a[1] == "p", fail))
+			out = append(out, e.crash(a[1] == "p", fail, "", nil))
+		case "relstop":
+			// stop in the middle of the release of session i: relstop:<i>:<p|e>:<d|n>  (d: the write that was at
+			// the store completes before the stop, the Delete queued behind it does not)
+			i, _ := strconv.Atoi(a[1])
+			key := c12SessID(i)
+			var dying chan string
+			if e.p.live(i) {
+				e.fake.mu.Lock()
+				e.fake.parkDeleteKey = key
+				e.fake.mu.Unlock()
+				dying = make(chan string, 1)
+				gidc := make(chan int64, 1)
+				go func() {
+					defer func() {
+						if r := recover(); r != nil {
+							dying <- fmt.Sprintf("panic:%v", r)
+						}
+					}()
+					g := c12GID()
+					e.fake.mu.Lock()
+					e.fake.opGID = g
+					e.fake.mu.Unlock()
+					gidc <- g
+					e.p.release(i)
+					dying <- ""
+				}()
+				gid := <-gidc
+				c12WaitFor(2*time.Second, func() bool { return len(dying) > 0 || c12GoroutineWaiting(gid) })
+			}
+			if len(a) > 3 && a[3] == "d" {
+				if p := e.fake.take(func(x *c12Put) bool { return x.key == key }); p != nil {
+					e.forget(p)
+					e.finishPut(p)
+					// the Delete that waited behind it reaches the store
+					c12WaitFor(200*time.Millisecond, func() bool {
+						e.fake.mu.Lock()
+						defer e.fake.mu.Unlock()
+						return e.fake.parkedDel != nil || e.fake.parkDeleteKey == ""
+					})
+				}
+			}
+			pre := e.log.take()
+			out = append(out, e.crash(a[2] == "p", -1, pre, dying))
 		default:
 			out = append(out, "badop")
 		}
